@@ -1,10 +1,10 @@
 (* PathImage.v — the shapes of AST the JSONPath parser can produce (C09). `shape_path` is PathSafe.safe_path with every
-   condition on names, literals, numbers and depth removed; `parse_image` shows that every accepted input gives a path of
+   condition on names, literals and numbers removed; `parse_image` shows that every accepted input gives a path of
    that shape, so the class of the round-trip theorem (PathRoundtrip.v) leaves out no tree shape the parser produces:
-   what it leaves out is stated by leaf conditions only (plus the depth bound of the printer model). *)
+   what it leaves out is stated by leaf conditions only (there is no depth bound: printer and class are structural). *)
 From Coq Require Import List NArith ZArith Bool Lia.
 Import ListNotations.
-From JB Require Import Constants Bytes Utf8 Num Value Decimal JsonText TreeOps Path PathParse PathSafe PathRoundtrip.
+From JB Require Import Constants Bytes Utf8 Num Value Decimal JsonText TreeOps Path PathInd PathParse PathSafe PathRoundtrip.
 Open Scope N_scope.
 Set Default Timeout 120.
 
@@ -230,46 +230,42 @@ Section SafeShape.
     - apply safe_inners_shape. exact H.
     - apply andb_true_iff in H. destruct H as [H1 H2]. rewrite H1, (safe_inners_shape l H2). reflexivity.
   Qed.
-  Lemma safe_shape : forall n,
-    (forall rp e, safe_expr okf n rp e = true -> shape_expr rp e) /\ (forall p, safe_step okf n p = true -> shape_step p).
+  Lemma safe_shape :
+    (forall e rp, safe_expr okf rp e = true -> shape_expr rp e) /\ (forall p, safe_step okf p = true -> shape_step p).
   Proof.
-    induction n as [|f [IHe IHp]]; [split; intros; discriminate|]. split.
-    - intros rp e H. change (safe_expr okf (S f) rp e) with
-        (match e with
-         | EBin op l r => if is_cmp op then (2 <=? f)%nat && safe_operand okf rp l && safe_operand okf rp r
-                          else safe_expr okf f rp l && safe_expr okf f rp r
-         | EArithB _ l r => (2 <=? f)%nat && safe_operand okf rp l && safe_operand okf rp r
-         | EArithU _ x => (2 <=? f)%nat && is_paths x && safe_operand okf rp x
-         | EExists (PRoot :: l) | EExists (PCurrent :: l) => (1 <=? f)%nat && forallb (safe_step okf f) l
-         | _ => false end) in H.
-      destruct e as [l|v|op l r|op x|op l r|l]; try discriminate H.
-      + destruct (is_cmp op) eqn:Ec.
-        * apply andb_true_iff in H. destruct H as [H Hr]. apply andb_true_iff in H. destruct H as [_ Hl].
-          apply se_cmp; [exact Ec|apply safe_operand_shape; exact Hl|apply safe_operand_shape; exact Hr].
-        * apply andb_true_iff in H. destruct H as [Hl Hr]. apply se_logic; [exact Ec|apply IHe; exact Hl|apply IHe; exact Hr].
-      + apply andb_true_iff in H. destruct H as [_ Hx]. apply se_unary. apply safe_operand_shape. exact Hx.
-      + apply andb_true_iff in H. destruct H as [H Hr]. apply andb_true_iff in H. destruct H as [_ Hl].
-        apply se_arith; apply safe_operand_shape; assumption.
-      + destruct l as [|hd l]; [discriminate H|].
-        assert (G : (hd = PRoot \/ hd = PCurrent) /\ forallb (safe_step okf f) l = true).
-        { destruct hd; try discriminate H; apply andb_true_iff in H; destruct H as [_ H]; (split; [tauto|exact H]). }
-        destruct G as [G1 G2]. apply se_exists; [exact G1|]. apply Forall_forall. intros p Hp.
-        apply IHp. rewrite forallb_forall in G2. apply G2. exact Hp.
-    - intros p H. change (safe_step okf (S f) p) with (match p with PFilter e => safe_expr okf f false e | _ => safe_inner p end) in H.
-      destruct p; try (apply ss_inner, safe_inner_shape; exact H). apply ss_filter. apply IHe. exact H.
+    apply (expr_path_ind (fun e => forall rp, safe_expr okf rp e = true -> shape_expr rp e)
+                         (fun p => safe_step okf p = true -> shape_step p));
+      try (intros; apply ss_inner, safe_inner_shape; assumption);
+      try (intros; match goal with H : safe_step okf _ = true |- _ => discriminate H end).
+    - intros l _ rp H. discriminate H.
+    - intros v rp H. discriminate H.
+    - intros op l r IHl IHr rp H. rewrite safe_expr_S in H. destruct (is_cmp op) eqn:Ec.
+      + apply andb_true_iff in H. destruct H as [Hl Hr].
+        apply se_cmp; [exact Ec|apply safe_operand_shape; exact Hl|apply safe_operand_shape; exact Hr].
+      + apply andb_true_iff in H. destruct H as [Hl Hr]. apply se_logic; [exact Ec|apply IHl; exact Hl|apply IHr; exact Hr].
+    - intros op x _ rp H. rewrite safe_expr_S in H. apply andb_true_iff in H. destruct H as [_ Hx]. apply se_unary. apply safe_operand_shape. exact Hx.
+    - intros op l r _ _ rp H. rewrite safe_expr_S in H. apply andb_true_iff in H. destruct H as [Hl Hr].
+      apply se_arith; apply safe_operand_shape; assumption.
+    - intros l IH rp H. rewrite safe_expr_S in H. destruct l as [|hd l]; [discriminate H|].
+      assert (G : (hd = PRoot \/ hd = PCurrent) /\ forallb (safe_step okf) l = true).
+      { destruct hd; try discriminate H; (split; [tauto|exact H]). }
+      destruct G as [G1 G2]. apply se_exists; [exact G1|]. apply Forall_forall. intros p Hp.
+      inversion IH as [|? ? _ IHl]; subst. rewrite Forall_forall in IHl. apply IHl; [exact Hp|].
+      rewrite forallb_forall in G2. apply G2. exact Hp.
+    - intros e IH H. rewrite safe_step_S in H. apply ss_filter. apply IH. exact H.
   Qed.
-  Lemma safe_steps_shape n l : forallb (safe_step okf n) l = true -> Forall shape_step l.
-  Proof. intros H. apply Forall_forall. intros p Hp. apply (proj2 (safe_shape n)). rewrite forallb_forall in H. apply H. exact Hp. Qed.
+  Lemma safe_steps_shape l : forallb (safe_step okf) l = true -> Forall shape_step l.
+  Proof. intros H. apply Forall_forall. intros p Hp. apply (proj2 safe_shape). rewrite forallb_forall in H. apply H. exact Hp. Qed.
   Theorem safe_path_shape ps : safe_path okf ps = true -> shape_path ps.
   Proof.
     intros H. destruct ps as [|p l]; [constructor|].
     assert (U : p <> PRoot -> (forall e, p <> PPredicate e) -> shape_path (p :: l)).
     { intros N1 N2. rewrite (safe_path_unrooted okf p l N1 N2) in H. apply andb_true_iff in H. destruct H as [H _].
-      apply steps_shape_path. apply (safe_steps_shape 200). exact H. }
+      apply steps_shape_path. apply safe_steps_shape. exact H. }
     destruct p; try (apply U; discriminate).
-    - rewrite safe_path_root in H. apply (safe_steps_shape 200). exact H.
+    - rewrite safe_path_root in H. apply safe_steps_shape. exact H.
     - destruct l as [|q l'].
-      + rewrite safe_path_pred in H. apply (proj1 (safe_shape 199)). exact H.
+      + rewrite safe_path_pred in H. apply (proj1 safe_shape). exact H.
       + rewrite safe_path_pred_more in H. discriminate H.
   Qed.
 End SafeShape.
@@ -277,18 +273,18 @@ End SafeShape.
 (* ---------------------------------------------------------------- shape + leaf conditions = the class of the theorem *)
 Section LeafSafe.
   Variable okf : N -> bool.
-  Lemma leaf_expr_S f e :
-    leaf_expr okf (S f) e =
+  Lemma leaf_expr_S e :
+    leaf_expr okf e =
     match e with
-    | EBin op l r => if is_cmp op then (2 <=? f)%nat && leaf_operand okf l && leaf_operand okf r
-                     else leaf_expr okf f l && leaf_expr okf f r
-    | EArithB _ l r => (2 <=? f)%nat && leaf_operand okf l && leaf_operand okf r
-    | EArithU _ x => (2 <=? f)%nat && is_paths x && leaf_operand okf x
-    | EExists l => (1 <=? f)%nat && forallb (leaf_step okf f) l
+    | EBin op l r => if is_cmp op then leaf_operand okf l && leaf_operand okf r
+                     else leaf_expr okf l && leaf_expr okf r
+    | EArithB _ l r => leaf_operand okf l && leaf_operand okf r
+    | EArithU _ x => is_paths x && leaf_operand okf x
+    | EExists l => forallb (leaf_step okf) l
     | _ => true
     end.
-  Proof. reflexivity. Qed.
-  Lemma leaf_step_S f p : leaf_step okf (S f) p = match p with PFilter e => leaf_expr okf f e | _ => leaf_inner p end.
+  Proof. destruct e; reflexivity. Qed.
+  Lemma leaf_step_S p : leaf_step okf p = match p with PFilter e => leaf_expr okf e | _ => leaf_inner p end.
   Proof. reflexivity. Qed.
 
   Lemma leaf_inner_safe p : shape_inner p = true -> leaf_inner p = true -> safe_inner p = true.
@@ -310,41 +306,49 @@ Section LeafSafe.
     - apply andb_true_iff in H1. destruct H1 as [A1 A2]. rewrite A1, (leaf_inners_safe l A2 H2). reflexivity.
   Qed.
 
-  Lemma leaf_shape_safe_fuel : forall n,
-    (forall rp e, shape_expr rp e -> leaf_expr okf n e = true -> safe_expr okf n rp e = true) /\
-    (forall p, shape_step p -> leaf_step okf n p = true -> safe_step okf n p = true).
+  Lemma leaf_shape_safe_all :
+    (forall e rp, shape_expr rp e -> leaf_expr okf e = true -> safe_expr okf rp e = true) /\
+    (forall p, shape_step p -> leaf_step okf p = true -> safe_step okf p = true).
   Proof.
-    induction n as [|f [IHe IHp]]; [split; intros; discriminate|]. split.
-    - intros rp e Hs Hl. rewrite leaf_expr_S in Hl. rewrite safe_expr_S.
-      destruct Hs as [rp op l r Hop H1 H2|rp op l r Hop H1 H2|rp op l r H1 H2|rp op x H1|rp hd l Hhd HF].
-      + rewrite Hop in *. apply andb_true_iff in Hl. destruct Hl as [L1 L2]. rewrite (IHe rp l H1 L1), (IHe rp r H2 L2). reflexivity.
-      + rewrite Hop in *. apply andb_true_iff in Hl. destruct Hl as [Hl L2]. apply andb_true_iff in Hl. destruct Hl as [L0 L1].
-        rewrite L0, (leaf_operand_safe rp l H1 L1), (leaf_operand_safe rp r H2 L2). reflexivity.
-      + apply andb_true_iff in Hl. destruct Hl as [Hl L2]. apply andb_true_iff in Hl. destruct Hl as [L0 L1].
-        rewrite L0, (leaf_operand_safe rp l H1 L1), (leaf_operand_safe rp r H2 L2). reflexivity.
-      + apply andb_true_iff in Hl. destruct Hl as [Hl L2]. apply andb_true_iff in Hl. destruct Hl as [L0 L1].
-        rewrite L0, L1, (leaf_operand_safe rp x H1 L2). reflexivity.
-      + apply andb_true_iff in Hl. destruct Hl as [L0 L1]. cbn [forallb] in L1. apply andb_true_iff in L1. destruct L1 as [_ L1].
-        assert (G : forallb (safe_step okf f) l = true).
-        { apply forallb_forall. intros p Hp. rewrite Forall_forall in HF. rewrite forallb_forall in L1. apply IHp; [apply HF|apply L1]; exact Hp. }
-        destruct Hhd as [-> | ->]; rewrite L0, G; reflexivity.
-    - intros p Hs Hl. rewrite leaf_step_S in Hl. rewrite safe_step_S. destruct Hs as [p Hi|e He].
-      + destruct p; try discriminate Hi; apply leaf_inner_safe; assumption.
-      + apply IHe; assumption.
+    apply (expr_path_ind (fun e => forall rp, shape_expr rp e -> leaf_expr okf e = true -> safe_expr okf rp e = true)
+                         (fun p => shape_step p -> leaf_step okf p = true -> safe_step okf p = true));
+      try (intros; match goal with Hs : shape_step _ |- _ => inversion Hs as [? Hi|]; subst; try discriminate Hi end;
+           rewrite safe_step_S; apply leaf_inner_safe; assumption).
+    - intros l _ rp Hs. inversion Hs.
+    - intros v rp Hs. inversion Hs.
+    - intros op l r IHl IHr rp Hs Hl. rewrite leaf_expr_S in Hl. rewrite safe_expr_S.
+      inversion Hs as [? ? ? ? Hop H1 H2|? ? ? ? Hop H1 H2| | |]; subst; rewrite Hop in *.
+      + apply andb_true_iff in Hl. destruct Hl as [L1 L2]. rewrite (IHl rp H1 L1), (IHr rp H2 L2). reflexivity.
+      + apply andb_true_iff in Hl. destruct Hl as [L1 L2].
+        rewrite (leaf_operand_safe rp l H1 L1), (leaf_operand_safe rp r H2 L2). reflexivity.
+    - intros op x _ rp Hs Hl. rewrite leaf_expr_S in Hl. rewrite safe_expr_S. inversion Hs as [| | |? ? ? H1|]; subst.
+      apply andb_true_iff in Hl. destruct Hl as [L1 L2]. rewrite L1, (leaf_operand_safe rp x H1 L2). reflexivity.
+    - intros op l r _ _ rp Hs Hl. rewrite leaf_expr_S in Hl. rewrite safe_expr_S. inversion Hs as [| |? ? ? ? H1 H2| |]; subst.
+      apply andb_true_iff in Hl. destruct Hl as [L1 L2].
+      rewrite (leaf_operand_safe rp l H1 L1), (leaf_operand_safe rp r H2 L2). reflexivity.
+    - intros l IH rp Hs Hl. rewrite leaf_expr_S in Hl. rewrite safe_expr_S. inversion Hs as [| | | |? hd l' Hhd HF]; subst.
+      cbn [forallb] in Hl. apply andb_true_iff in Hl. destruct Hl as [_ L1].
+      inversion IH as [|? ? _ IHl]; subst.
+      assert (G : forallb (safe_step okf) l' = true).
+      { apply forallb_forall. intros p Hp. rewrite Forall_forall in HF, IHl. rewrite forallb_forall in L1.
+        apply IHl; [exact Hp|apply HF; exact Hp|apply L1; exact Hp]. }
+      destruct Hhd as [-> | ->]; exact G.
+    - intros e IH Hs Hl. rewrite leaf_step_S in Hl. rewrite safe_step_S. inversion Hs as [? Hi|? He]; subst; [discriminate Hi|].
+      apply IH; assumption.
   Qed.
 
   Lemma leaf_path_unrooted p l : p <> PRoot -> (forall e, p <> PPredicate e) ->
-    leaf_path okf (p :: l) = forallb (leaf_step okf 200) (p :: l) && first_ok (p :: l).
+    leaf_path okf (p :: l) = forallb (leaf_step okf) (p :: l) && first_ok (p :: l).
   Proof. intros H1 H2. destruct p; try reflexivity; [contradiction H1; reflexivity|]. destruct (H2 e eq_refl). Qed.
-  Lemma leaf_path_root l : leaf_path okf (PRoot :: l) = forallb (leaf_step okf 200) l.
+  Lemma leaf_path_root l : leaf_path okf (PRoot :: l) = forallb (leaf_step okf) l.
   Proof. reflexivity. Qed.
-  Lemma leaf_path_pred e : leaf_path okf [PPredicate e] = leaf_expr okf 199 e.
+  Lemma leaf_path_pred e : leaf_path okf [PPredicate e] = leaf_expr okf e.
   Proof. reflexivity. Qed.
 
-  Lemma leaf_steps_safe l : Forall shape_step l -> forallb (leaf_step okf 200) l = true -> forallb (safe_step okf 200) l = true.
+  Lemma leaf_steps_safe l : Forall shape_step l -> forallb (leaf_step okf) l = true -> forallb (safe_step okf) l = true.
   Proof.
     intros HF HL. apply forallb_forall. intros p Hp. rewrite Forall_forall in HF. rewrite forallb_forall in HL.
-    apply (proj2 (leaf_shape_safe_fuel 200)); [apply HF|apply HL]; exact Hp.
+    apply (proj2 leaf_shape_safe_all); [apply HF|apply HL]; exact Hp.
   Qed.
 
   Theorem leaf_shape_safe ps : shape_path ps -> leaf_path okf ps = true -> safe_path okf ps = true.
@@ -357,7 +361,7 @@ Section LeafSafe.
     destruct p; try (apply U; discriminate).
     - rewrite safe_path_root. rewrite leaf_path_root in Hl. apply leaf_steps_safe; assumption.
     - destruct l as [|q l'].
-      + rewrite safe_path_pred. rewrite leaf_path_pred in Hl. apply (proj1 (leaf_shape_safe_fuel 199)); assumption.
+      + rewrite safe_path_pred. rewrite leaf_path_pred in Hl. apply (proj1 leaf_shape_safe_all); assumption.
       + exfalso. change (Forall shape_step (PPredicate e :: q :: l')) in Hs. inversion Hs as [|? ? Hp _]; subst.
         inversion Hp as [? Hi|]; subst. discriminate Hi.
   Qed.
